@@ -6,7 +6,7 @@
    model  = Model/Adapters.v run on it: the log of every innermost result, the on_test callbacks, the
             calls that raised;
    wf     = the stack is well-formed (a TestResultDecorator/Tagger decorates something that speaks the
-            extended protocol), the history is bracketed, detail names are distinct (Spec.C08.wfb). *)
+            extended protocol), the history is bracketed, detail names (arbitrary strings) are distinct (Spec.C08.wfb). *)
 From TT Require Import Lib.Base Model.Adapters Spec.C08 Corr.C08 Proof.C08.
 
 (* The model meets the whole statement, for every stack, every capability set and every history. *)
@@ -53,7 +53,8 @@ Theorem C08_degradation : forall i, wf i -> forall k c tg,
 Proof. exact model_degradation. Qed.
 Print Assumptions C08_degradation.
 
-(* The substring lemma on the model of _details_to_str, and the reason taken from details['reason']. *)
+(* The substring lemma on the model of _details_to_str - for ANY distinct names (strings), in particular names
+   that extend the special name ('traceback-1', 'tracebackx') - and the reason taken from details['reason']. *)
 Theorem C08_details_text : forall d special, NoDup (map fst d) -> ContainsAll d (details_to_str d special).
 Proof. exact details_text. Qed.
 Print Assumptions C08_details_text.
@@ -107,7 +108,7 @@ Print Assumptions C08_raise_delivers_nothing.
 (* non-vacuity: a MultiTestResult over a tagged TestByTestResult and a 2.6-style result; an unexpected
    success of a PlaceHolder with details, a skip with a 'reason' detail *)
 Example C08_example :
-  let d := [(n_reason, DText [97; 32]); (0, DText [32; 98; 32])] in
+  let d := [(n_reason, DText [97; 32]); ([97], DText [32; 98; 32])] in
   let i := {| stack := Multi [Tagger [1] [] ByTest; Target py26];
               hist := [StartTestRun; Tags [2] []; Time 3; StartTest (th 1); AddOk KUxSuccess (th 1) (Some d);
                        Time 5; StopTest (th 1); StartTest (tc 0); AddSkip (tc 0) (inr d); StopTest (tc 0);
@@ -123,4 +124,16 @@ Example C08_example :
                  StartTest (tc 0); AddOk KSuccess (tc 0) None; StopTest (tc 0)]];
         o_raised := [(10, AttributeError)] |}
   /\ substringb [98] (details_to_str d (Some n_traceback)) = true.
+Proof. vm_compute. repeat split. Qed.
+
+(* a failed test whose cleanup failed too ('traceback' and 'traceback-1'), and a look-alike name, towards a
+   2.7-style result: "traceback-1: {{{b}}}\ntracebackx: {{{c}}}\n\na\n" - the special one last, the others sorted *)
+Example C08_example_tracebacks :
+  let d := [(n_traceback ++ [45; 49], DText [98]); (n_traceback ++ [120], DText [99]); (n_traceback, DText [97])] in
+  details_okb d = true
+  /\ details_to_str d (Some n_traceback)
+     = n_traceback ++ [45; 49] ++ t_open ++ [98] ++ t_close ++ [10]
+       ++ n_traceback ++ [120] ++ t_open ++ [99] ++ t_close ++ [10; 10; 97; 10]
+  /\ e2o_conv py27 (AddErr KError (tc 0) (inr d))
+     = [AddErr KError (tc 0) (inl (Str (details_to_str d (Some n_traceback))))].
 Proof. vm_compute. repeat split. Qed.
